@@ -39,8 +39,14 @@ def scenarios(tier, seed):
     for i in range(N[tier]):
         rng = rng_for(seed, PROP, i)
         kind = kinds[i % len(kinds)]
+        stress = i % 5 == 4  # constrained stress family: curved manifolds, several inner steps, large steps
+        if stress:
+            kind = rng.choice(["con", "gcon"])
         spec = zoo.random_system_spec(rng, kinds=(kind,), dims=(1, 2, 3))
         ispec = zoo.random_integrator_spec(rng, spec["kind"], step_size=rng.choice([0.02, 0.1, 0.3, 0.7]), allow_implicit_for_tractable=rng.random() < 0.4)
+        if stress:
+            ispec["n_inner_step"] = rng.choice([2, 3, 4])
+            ispec["step_size"] = rng.choice([0.4, 0.7, 1.0, 1.5])
         if ispec["type"] in ("implicit_leapfrog", "implicit_midpoint"):
             if rng.random() < 0.5:
                 ispec["solver_kwargs"] = {"max_iters": rng.choice([1, 2, 3, 6, 15, 100]), "convergence_tol": rng.choice([1e-9, 1e-9, 1e-6, 1e-11])}
@@ -68,7 +74,7 @@ def scenarios(tier, seed):
         out.append({
             "system": spec, "integrator": ispec, "transition": ts, "n_iter": rng.choice([3, 5, 8]), "chain_seed": rng.getrandbits(40),
             "start_variant": rng.randrange(3), "mom_resample_coeff": 1.0,
-            "step_sizes": rng.choice([None, [0.05, 0.3, 1.0, 2.5], [0.5, 0.9, 1.4], [0.01, 5.0]]),
+            "step_sizes": rng.choice([None, [0.05, 0.3, 1.0, 2.5], [0.5, 0.9, 1.4], [0.01, 5.0]]) if not stress else rng.choice([None, [0.6, 1.2], [0.9, 1.6, 0.4]]),
             "region": region, "check_reversal": True, "lattice_n": rng.choice([1, 2, 3, 5, 8]),
         })
     return out
